@@ -6,41 +6,66 @@ DISAGREE_IS_VIOLATION = True   # observables are exactly what the property fixes
 HARNESS_TIMEOUT = 600
 RULE = ("exhaustive: every event list of length <= 3 (quick; 5-event alphabet: register / re-register with changed "
         "state+address / expire one node, register a second node, delete the node itself) resp. <= 4 (thorough; 7-event "
-        "alphabet, also with a non-empty initial listing) in EVERY batching (2^(L-1) splits); all-batchings: every split "
-        "of random lists of 2-5 (thorough 2-7) events; random: 1-40 events over 4 node ids incl. the node itself, "
-        "duplicates, deletes of unknown nodes, junk events, malformed service names, stale/dead/duplicate listing "
-        "entries, random splits incl. empty responses, a second provider life; random-nonconforming (10%): records "
-        "under a foreign key or marked dead (model agreement only, the theorem's guard is off); stress-measurement: "
-        "3 (thorough 12) runs of one updater alternating two views against 6 readers. Non-trivial = at least one "
-        "publication caused by a watch response and some published list with >= 2 members (stress: the two views "
-        "give different answers); distinct = distinct op sequences.")
+        "alphabet, also with an initial listing that contains a stale record of the node itself) in EVERY batching "
+        "(2^(L-1) splits); listing-systematic: 12 initial listings (empty, other node, the node's own stale record "
+        "first/last/alone/twice, dead records, duplicate ids) x every alphabet event and delete/register pairs about the "
+        "node itself; self-state-systematic: state change, lease loss, then the DELETE/PUT echo about the node itself in "
+        "one or two responses or with the OLD state, re-watch; all-batchings: every split of random lists of 2-5 "
+        "(thorough 2-7) events; random: provider lives of 1-3 watch segments (1-32 events over 4 node ids incl. the node "
+        "itself, duplicates, deletes of unknown nodes, junk events, malformed service names, random splits incl. empty "
+        "responses) interleaved with own state changes (+ echo), lease losses (incl. failing retry), closed/failed watch "
+        "streams, shutdown, queries of the package-level getters, failing starts (undecodable listing entry, failing Get, "
+        "address that is no host:port), a second life; random-nonconforming (10%): records under a foreign key or marked "
+        "dead (model agreement only, the theorem's guard is off); direct: etcd.Node round trips and self-cluster "
+        "topologies; stress-measurement: 3 (thorough 12) runs of one updater alternating two views against 6 readers. "
+        "Non-trivial = a publication with >= 2 members caused by a watch response, or an own state change "
+        "(stress: the two views give different answers); distinct = distinct op sequences.")
 TRUSTED_BASE = [
     "Coq 8.16.1 kernel + vm_compute (case evaluation, Examples); no native_compute",
-    "hand translation etcd_provider.go (handleWatchResponse, updateNodesWithChanges, updateNodesWithSelf, _keepWatching, "
-    "createClusterTopologyEvent) and clusterservices.go (MakeMembers, addService, makePID, getters) -> C08/Model.v, measured by this correspondence run",
-    "verif-tagged export node/cluster/clusterproviders/etcd/verif_export.go: VerifNewProvider repeats the 3 lines of StartMember "
-    "between init and startWatching (fetchNodes' decoding loop, updateNodesWithSelf, publish) without an etcd client; VerifFeed runs the real _keepWatching on an injected channel",
-    "Go harness harness/c08 (recording ICluster that sorts each published list before handing it to the real app.Cluster, token<->string maps), bin/check.py JSON->Coq term printer",
-    "modelled not verified: etcd itself and clientv3 (only WatchResponse values are consumed), JSON (de)serialisation of Node (exercised, not modelled), "
-    "Go maps (as sorted association lists; iteration order never observable), plain pointer stores/loads of the four ClusterServices fields as sequentially consistent atomic steps "
-    "(the Go memory model gives no such guarantee for unsynchronised accesses - the stress run is a measurement on this machine only)",
+    "hand translation etcd_provider.go (StartMember order, fetchNodes result, updateNodes/updateNodesWithSelf, handleWatchResponse, "
+    "updateNodesWithChanges, _keepWatching, the re-watch loop of startWatching, UpdateClusterState, registerService/keepAliveForever "
+    "re-registration, Shutdown, createClusterTopologyEvent), node.go, cluster.go (InitSelf/makeFullNameServices/BuildSelfClusterTopology) "
+    "and clusterservices.go + the getters of utils.go -> C08/Model.v, measured by this correspondence run",
+    "verif-tagged exports in node/cluster/clusterproviders/etcd: verif_export_client.go (VerifNewProviderWithClient: real NewWithConfig, then the "
+    "client is replaced by &clientv3.Client{KV,Watcher,Lease} supplied by the harness and the lease id is preset; VerifSetRetryInterval); "
+    "verif_export.go (older entry points, no longer used by this harness)",
+    "the harness's stand-in for etcd (harness/c08/fake.go): Get answers a prepared listing, Watch hands out an unbuffered channel the harness "
+    "writes to (an empty response after each group of responses is the barrier), KeepAlive hands out a channel, Put/Delete/Revoke are recorded. "
+    "It has none of etcd's semantics: that a lease expiry produces a DELETE, that a re-registration produces a PUT, revision continuity "
+    "between two watches are inputs chosen by the generator, not consequences",
+    "NEEDS A LIVE ETCD, not run: clientv3.New's connection and NewWithConfig's error return; newLeaseID (clientv3.NewLease(p.client).Grant goes "
+    "through the client's gRPC connection - the lease id is preset instead) and with it the lease<=0 branches of registerService/keepAliveForever; "
+    "real lease keep-alive timing/expiry; what a watch re-opened WITHOUT a start revision misses (keepWatching passes no WithRev although p.revision "
+    "is tracked: events between two watches are not delivered - outside 'events delivered by the watch', reported as an observation)",
+    "not run although offline-capable: StartClient (client mode, never called by the node's ClusterModule), the debugBadLease/debugShowEvent test "
+    "switches, newTestProvider, setLeaseID/newContext (unused), StartMember's and Shutdown's returns when the fake Put/Delete of the node's own key fails, "
+    "keepAliveForever's `resp == nil` branch (it dereferences the nil response in its error message and would panic; the etcd client closes the channel "
+    "instead of sending nil), unreachable error returns (getNodeID, Serialize)",
+    "Go harness harness/c08 (recording ICluster embedding the real app.Cluster of the global app.Node, published lists sorted before they reach "
+    "MakeMembers, token<->string maps), bin/check.py JSON->Coq term printer",
+    "modelled not verified: JSON (de)serialisation of Node (exercised incl. round trips, identity in the model), Go maps (sorted association lists; "
+    "iteration order never observable), math/rand picks (any index), plain pointer stores/loads of the four ClusterServices fields as sequentially "
+    "consistent atomic steps (the Go memory model gives no such guarantee for unsynchronised accesses - the stress run is a measurement on this machine only); "
+    "UpdateClusterState and the publication read p.self.State from different goroutines without synchronisation (the harness serialises them)",
     "reader atomicity on the real code is MEASURED (stress-measurement cases, boolean observable), the proof C08_reader_atomic is about the interleaving model",
 ]
 ASSUMPTIONS = [
-    "conformance of discovery data (theorem guard): the value stored under key .../k is the record of node k and registered records have alive=true; "
+    "conformance of discovery data (theorem guard): the value stored under key .../k is the record of node k and registered records have alive=true "
+    "(what the node itself registers satisfies it: C08_registration_conforms, and the harness checks the real Put); "
     "non-conforming events are still run against the model but not against the property",
-    "member mode (StartMember); StartClient (self not added) and UpdateClusterState (self state changed from another goroutine) are not modelled",
-    "a watch stream without error responses (resp.Err() != nil ends _keepWatching; the re-watch from the current revision is outside this property)",
-    "node ids, service types/names, states and addresses are tokens mapped injectively to strings / host:port; node ids contain no '/'",
+    "member mode (StartMember); StartClient is not modelled",
+    "an error response or a closed watch channel is followed by a new watch on the same member map (modelled and run); events the new watch does not deliver are not part of the history",
+    "node ids, service types/names, states and addresses are tokens mapped injectively to strings / host:port; node ids contain no '/'; node ids are single digits in the harness (canonical order of published lists)",
     "all queries and the updater act on one ClusterServices; a single query = one getter call (a caller chaining two getters is not covered, see C08_composite_can_mix)",
 ]
-TECHNIQUE = ("Coq proof (batch fold refines the per-event key-space semantics via a changes-map invariant; index construction equals "
-             "list comprehensions; interleaving model with a per-reference view invariant) + differential correspondence against the real "
-             "_keepWatching / MakeMembers / getters + stress measurement")
-LEVEL_TEXT = ("Machine-checked Coq theorems, unbounded: for every listing, event list and batching the published member map equals the implied "
-              "set incl. the node itself (after repairing F9); per-type / working / name / member indexes equal their specifications for every "
-              "member list; every single-reference query under every interleaving is answered from one published view. The model is tied to the "
-              "Go code by running both on the same histories each run; reader atomicity on the real code is only measured.")
+TECHNIQUE = ("Coq proof (batch fold refines the per-event key-space semantics via a changes-map invariant, extended to own state changes and re-watches; index "
+             "construction equals list comprehensions; laws of the first/random/PID getters; interleaving model with a per-reference view invariant; the "
+             "executable monitor is proved to accept every model run) + differential correspondence against the real StartMember / watch loop / keep-alive "
+             "loop / Shutdown on a stand-in etcd client, the real Cluster + ClusterServices + package-level getters + stress measurement")
+LEVEL_TEXT = ("Machine-checked Coq theorems, unbounded: for every listing, event list, batching, own state change and re-watch the published member map "
+              "equals the implied set incl. the node itself with its CURRENT state (after repairing F9); per-type / working / name / member indexes and the "
+              "derived getters equal their specifications for every member list; every single-reference query under every interleaving is answered from one "
+              "published view. The model is tied to the Go code by running both on the same histories each run; reader atomicity on the real code is only measured.")
 
 
 def extra_coverage(cases):
